@@ -170,6 +170,19 @@ def main(tier, seed):
         "samples": [{"case": c, "impl": i, "model": m} for c, i, m in list(zip(cases, impl, model))[-3:]],
         "model_impl_disagreements": len(diffs),
     })
+    # outside the model's operations: the PARENT answers PostAction::Disable itself after its child's event, so the loop unregisters it
+    # directly (no reregistration); then it is enabled again and served. Judged on the calls the children saw: none may fail.
+    dcases = ["from reg eDd reg evC", "from reg eDd reg eDd reg", "from reg evC eDd reg evC", "from reg eCd reg evC", "from reg eRd reg evC", "from reg eMd reg",
+              "from reg eDd reg unreg reg evC", "default rp reg eDd reg evC"]
+    dimpl, _ = vlib.run_impl(["transient"], dcases)
+    chk.cov["parent_answers_disable_itself"] = {"cases": len(dcases), "sample": {"case": dcases[0], "impl": dimpl[0] if dimpl else ""}}
+    for c, i in zip(dcases, dimpl):
+        calls = [w for w in i.split("|")[0].split() if w[0] in "GYU" and ":" in w]
+        failed = [w for w in calls if w.endswith(":0")] + [w for w in i.split("|")[0].split() if w == "S0"]
+        if failed or i.startswith("PANIC"):
+            bad.append((c, i, ["the parent answered Disable itself after its child's event (so it was unregistered without the reregistration the child had asked "
+                               "for) and was enabled again: the child calls / wrapper results %s failed - the child's registration was not in step with its parent's "
+                               "(G = register, Y = reregister, U = unregister, S = the wrapper's own result)" % failed]))
     if known_hit:
         k = [x for x in vlib.load_known() if x.get("id") == "F7" and x.get("status") == "known"]
         if k:
@@ -196,6 +209,16 @@ def main(tier, seed):
 def replay(path):
     cases = [l.strip() for l in open(path) if l.split() and l.split()[0] in ("from", "default")]
     vlib.build_harness()
+    dcases = [c for c in cases if any(len(w) == 3 and w[0] == "e" and w[2] == "d" for w in c.split())]
+    if dcases:
+        # outside the model: judged on the children's calls alone
+        dimpl, _ = vlib.run_impl(["transient"], dcases)
+        rc = 0
+        for c, i in zip(dcases, dimpl):
+            failed = [w for w in i.split("|")[0].split() if (w[0] in "GYU" and w.endswith(":0")) or w == "S0"]
+            print(c, "->", i, "" if not failed else "  FAILS: %s" % failed)
+            rc = rc or (1 if failed else 0)
+        return rc
     vlib.build_model()
     impl, _ = vlib.run_impl(["transient"], cases)
     model, _ = vlib.run_model(["transient"], cases)
